@@ -164,6 +164,45 @@ def run(ck):
             ck.violation("delivery-mismatch.normal-mode", {"property": "C02", "script": ["start 0 - 0", "discard q", "discard e"] + ["rx " + hexs(frame([b for m in msgs for b in m])) for msgs in pk] + ["drain q", "drain e"],
                          "expected": expq + expe, "delivered": il, "reason": "outside debug mode a message of a CRC-valid packet did not reach its queue exactly once, in order and byte-identical"})
     ck.oblige("normal mode: every message of %d good packets-sequences (depth 0-3, %d messages from depth-3 senders) reaches its user queue once, in order, byte-identical" % (nn, depth3), nbad == 0, "%d mismatches" % nbad)
+    # round trip on the real code: whatever the library's own sender emits, its receiver decodes to the identical message sequence
+    # (packets of one message each, flushed one by one, so that the packet CRC takes every value - also the two that need an escape)
+    nl = 60 if quick else 1500; lcases = []
+    for _ in range(nl):
+        ms = []
+        for _m in range(30):
+            depth = r.below(4); addr = [r.range(1, 255) for _ in range(depth)] + [0] * (3 - depth)
+            data = [r.choice(SPECIAL) if r.chance(1, 6) else r.below(256) for _ in range(r.choice([1, 1, 2, 3, 6]))]
+            ms.append((addr, r.choice([0x22, 0x23]), data))      # mirror messages: no answer expected, never held by flow control
+        lcases.append(ms)
+    LA = ["start 1 - 0", "logw 1"]
+    for i, ms in enumerate(lcases):
+        LA += ["case L%d" % i, "reset_nodes", "cap 0", "flush"]
+        for addr, ty, data in ms: LA += ["send %d %d %d %d %s" % (addr[0], addr[1], addr[2], ty, hexs(data)), "flush"]
+    rca, outa, erra = vlib.run_driver(exe, "\n".join(LA) + "\n", timeout=900)
+    wa = vlib.split_cases(outa)
+    LB = ["start 1 - 0"]
+    wires = {}
+    for i in range(nl):
+        w = [b for l in wa.get("L%d" % i, []) if l.startswith("w ") for b in unhex(l[2:])]; wires[i] = w
+        LB += ["case L%d" % i, "rx fe", "discard q", "rx " + hexs(w + [0xFE]), "drain q"]
+    rcb, outb, errb = vlib.run_driver(exe, "\n".join(LB) + "\n", timeout=900)
+    wb = vlib.split_cases(outb); lbad = 0; esc_crc = 0
+    for i, ms in enumerate(lcases):
+        got = [unhex(l[2:]) for l in wb.get("L%d" % i, []) if l.startswith("q ") and l != "q none"]
+        w = wires[i]
+        esc_crc += sum(1 for j in range(2, len(w)) if w[j] == 0xFE and w[j - 2] == 0xFD)
+        def fields(m):
+            z = m.index(0, 1); return (list(m[1:z]), m[z + 2], list(m[z + 3:]))
+        want = [([x for x in addr if x], ty, data) for addr, ty, data in ms]
+        try: have = [fields(m) for m in got]
+        except Exception: have = None
+        if have != want:
+            lbad += 1
+            ck.violation("roundtrip", {"property": "C02", "script": ["start 1 - 0", "logw 1", "reset_nodes", "cap 0", "flush"] + [x for addr, ty, data in ms for x in ("send %d %d %d %d %s" % (addr[0], addr[1], addr[2], ty, hexs(data)), "flush")] +
+                         ["# the bytes written above, fed back:", "rx fe", "discard q", "rx " + hexs(w + [0xFE]), "drain q"],
+                         "sent": [[hexs(a) or "-", "%02x" % t, hexs(d)] for a, t, d in want], "delivered": [hexs(m) for m in got], "wire": hexs(w),
+                         "reason": "the receiver did not decode the sender's own output to the identical message sequence"})
+    ck.oblige("round trip on the real code: %d packets written by the sender and fed back to the receiver (%d with an escaped CRC) deliver the sent messages" % (nl * 30, esc_crc), lbad == 0, "%d histories differ" % lbad)
     ck.oblige("correspondence corr_rx (impl == model on %d streams)" % evals, dis == 0, "%d disagreements" % dis)
     ck.oblige("reference decoder agrees with implementation deliveries", orc == 0, "%d mismatches" % orc)
     ck.coverage.update({"evaluations": evals, "distinct_nontrivial": nontrivial, "distribution": dist, "routed_to_C12_by_model_fault": routed,
